@@ -63,6 +63,23 @@ def spec_read_xml_texts(texts):
     return _collect(run_model(ops)[1:])
 
 
+def spec_read_provn_texts(texts):
+    """list of PROV-N texts -> abstract documents (Lean PROV-N reader written from the grammar) or None"""
+    import re
+    ops = [{"op": "reset"}]
+    for t in texts:
+        hints = {}
+        for m in re.finditer(r'"([^"\\\n]*)" %% xsd:double', t):
+            try:
+                x = float(m.group(1))
+                if x == x and x not in (float("inf"), float("-inf")):
+                    hints[m.group(1)] = proto.enc_float(x)
+            except ValueError:
+                pass
+        ops.append({"op": "spec_provn", "text": t, "hints": [{"lex": k, "f": v} for k, v in hints.items()]})
+    return _collect(run_model(ops)[1:])
+
+
 def spec_read_json_texts(texts):
     """list of PROV-JSON texts -> list of abstract documents {bundle key: sorted strict records} or None"""
     ops = [{"op": "reset"}]
